@@ -23,10 +23,38 @@ type sites struct {
 	steps []*[]Step
 	strs  []*Str
 	ops   []*Op
+	// frozen > 0: inside the base call of a composite op whose other
+	// fields (placement, verb, context) refer to its structure: only
+	// payload strings may be edited there
+	frozen int
 }
 
 func (s *sites) walkOp(op *Op) {
 	s.ops = append(s.ops, op)
+	if s.frozen > 0 {
+		for i := range op.A {
+			s.walkVal(&op.A[i])
+		}
+		s.walkSteps(op.S)
+		s.walkSteps(op.Dst)
+		if op.In != nil {
+			s.walkOp(op.In)
+		}
+		return
+	}
+	if op.K == "panicx" {
+		s.frozen++
+		if op.In != nil {
+			s.walkOp(op.In)
+		}
+		s.frozen--
+		if op.PT != nil {
+			for i := range op.PT.Payload {
+				s.walkVal(&op.PT.Payload[i])
+			}
+		}
+		return
+	}
 	s.strs = append(s.strs, &op.F)
 	s.vals = append(s.vals, &op.A)
 	s.steps = append(s.steps, &op.S)
@@ -39,14 +67,22 @@ func (s *sites) walkOp(op *Op) {
 	if op.W != nil && op.W.Op != nil {
 		s.walkOp(op.W.Op)
 	}
+	if op.In != nil {
+		s.walkOp(op.In)
+	}
+	if op.PT != nil {
+		for i := range op.PT.Payload {
+			s.walkVal(&op.PT.Payload[i])
+		}
+	}
 }
 
 func (s *sites) walkVal(v *Val) {
 	s.strs = append(s.strs, &v.S, &v.R)
-	if len(v.V) > 0 {
+	if len(v.V) > 0 && s.frozen == 0 {
 		s.vals = append(s.vals, &v.V)
 	}
-	if len(v.P) > 0 {
+	if len(v.P) > 0 && s.frozen == 0 {
 		s.steps = append(s.steps, &v.P)
 	}
 	for i := range v.V {
@@ -58,8 +94,10 @@ func (s *sites) walkVal(v *Val) {
 func (s *sites) walkSteps(ss []Step) {
 	for i := range ss {
 		st := &ss[i]
-		s.strs = append(s.strs, &st.S)
-		if len(st.V) > 0 {
+		if s.frozen == 0 || (st.A != "pf" && st.A != "ff") {
+			s.strs = append(s.strs, &st.S)
+		}
+		if len(st.V) > 0 && s.frozen == 0 {
 			s.vals = append(s.vals, &st.V)
 		}
 		for j := range st.V {
